@@ -298,13 +298,13 @@ def BasicSite.shape : BasicSite → Shape
 
 /-- `jwt_authenticator.go` (the places where a request can fail) -/
 inductive JwtSite where
-  | issuersRequired | noToken | parse | subject | metadataFailed | noJwksUri | claimsUnreadable | noKeyVerifies
+  | issuersRequired | noToken | parse | nonCanonical | subject | metadataFailed | noJwksUri | claimsUnreadable | noKeyVerifies
   | keyNotFound | keyInvalid | jwksTimeout | jwksUnreachable | template | requestFailed | jwksStatus | jwksUnparsable
   | algMismatch | algNotAllowed | signature | assertion | payloadMarshal
 deriving DecidableEq, Repr, Inhabited
 
 def JwtSite.all : List JwtSite :=
-  [.issuersRequired, .noToken, .parse, .subject, .metadataFailed, .noJwksUri, .claimsUnreadable, .noKeyVerifies,
+  [.issuersRequired, .noToken, .parse, .nonCanonical, .subject, .metadataFailed, .noJwksUri, .claimsUnreadable, .noKeyVerifies,
    .keyNotFound, .keyInvalid, .jwksTimeout, .jwksUnreachable, .template, .requestFailed, .jwksStatus, .jwksUnparsable,
    .algMismatch, .algNotAllowed, .signature, .assertion, .payloadMarshal]
 
@@ -312,6 +312,7 @@ def JwtSite.shape : JwtSite → Shape
   | .issuersRequired => [.k .configuration]
   | .noToken => [.k .authentication, .dyn]
   | .parse => [.k .authentication, .k .argument, .dyn]
+  | .nonCanonical => [.k .authentication, .k .argument, .dyn]
   | .subject => [.k .internal, .dyn]
   | .metadataFailed => [.k .internal, .dyn]
   | .noJwksUri => [.k .internal]
@@ -333,7 +334,7 @@ def JwtSite.shape : JwtSite → Shape
 
 /-- the sites reached only after a token was found in the request and parsed -/
 def JwtSite.verifies : JwtSite → Bool
-  | .issuersRequired | .noToken | .parse => false
+  | .issuersRequired | .noToken | .parse | .nonCanonical => false
   | _ => true
 
 /-- `oauth2_introspection_authenticator.go`; `assertion` stands for the validation of a fresh and of a cached
@@ -398,7 +399,8 @@ def unauthorizedShape : Shape := [.k .authentication]
 /-- the error values `Execute` of each authenticator constructs itself, in source order (compared with
 `Gen/AuthnSites.lean` on every run) -/
 def Facts.basicEntry : List Shape := BasicSite.all.map (·.shape)
-def Facts.jwtEntry : List Shape := [JwtSite.noToken.shape, JwtSite.parse.shape, JwtSite.subject.shape]
+def Facts.jwtEntry : List Shape :=
+  [JwtSite.noToken.shape, JwtSite.parse.shape, JwtSite.nonCanonical.shape, JwtSite.subject.shape]
 def Facts.introspectionEntry : List Shape := [IntroSite.noToken.shape, IntroSite.subject.shape]
 def Facts.genericEntry : List Shape := [GenSite.noData.shape, GenSite.subject.shape]
 def Facts.unauthorizedEntry : List Shape := [unauthorizedShape]
@@ -424,9 +426,26 @@ deriving DecidableEq, Repr, Inhabited
 def supportedAlgs : List Alg :=
   [.ES256, .ES384, .ES512, .EdDSA, .PS256, .PS384, .PS512, .RS256, .RS384, .RS512, .HS256, .HS384, .HS512]
 
-/-- `base64.RawURLEncoding.DecodeString` succeeds: URL-safe alphabet, no padding, no dangling character -/
+/-- the value of a character of the URL-safe base64 alphabet -/
+def b64urlValue (c : Char) : Option Nat :=
+  if 'A' ≤ c ∧ c ≤ 'Z' then some (c.toNat - 'A'.toNat)
+  else if 'a' ≤ c ∧ c ≤ 'z' then some (c.toNat - 'a'.toNat + 26)
+  else if '0' ≤ c ∧ c ≤ '9' then some (c.toNat - '0'.toNat + 52)
+  else if c == '-' then some 62
+  else if c == '_' then some 63
+  else none
+
+/-- `base64.RawURLEncoding.Strict().DecodeString` succeeds: URL-safe alphabet only (no padding, no line breaks), no
+dangling character, and the unused bits of the last character are zero — the segment is the one and only encoding
+of its octets (RFC 4648, 3.5). The lenient decoder `jwt.ParseSigned` uses accepts more (CR / LF anywhere, any
+trailing bits); `assertCanonicalSerialization` then refuses exactly the difference. -/
 def isB64url (s : List Char) : Bool :=
-  s.all (fun c => c.isAlphanum || c == '-' || c == '_') && s.length % 4 != 1
+  s.all (fun c => (b64urlValue c).isSome) &&
+  match s.length % 4, s.getLast? with
+  | 1, _ => false
+  | 2, some c => (b64urlValue c).any (· % 16 == 0)
+  | 3, some c => (b64urlValue c).any (· % 4 == 0)
+  | _, _ => true
 
 /-- `strings.Split(s, ".")` -/
 def splitDots : List Char → List (List Char)
@@ -436,7 +455,8 @@ def splitDots : List Char → List (List Char)
     | [] => [[c]]
     | p :: ps => if c == '.' then [] :: p :: ps else (c :: p) :: ps
 
-/-- the string has the form of a JWS compact serialisation: three base64url parts separated by dots -/
+/-- the string is a canonically spelled JWS compact serialisation: three strictly base64url encoded parts separated
+by dots -/
 def isCompactJWS (tok : String) : Bool :=
   match splitDots tok.toList with
   | [h, p, s] => isB64url h && isB64url p && isB64url s
@@ -468,7 +488,9 @@ deriving Repr, Inhabited
 def lookup {β : Type} (l : List ((String × String) × β)) (id tok : String) : Option β :=
   (l.find? (fun p => p.1.1 == id && p.1.2 == tok)).map (·.2)
 
-/-- `jwt.ParseSigned(tok, supportedAlgorithms())` succeeds: compact JWS form and a supported signature algorithm -/
+/-- `jwt.ParseSigned(tok, supportedAlgorithms())` and `assertCanonicalSerialization(tok)` both succeed: canonical
+compact JWS form and a supported signature algorithm. (A failure of either constructs the same error value:
+authentication error, argument error, cause.) -/
 def World.parsesJWT (w : World) (tok : String) : Bool :=
   isCompactJWS tok &&
   match w.headerAlg.find? (fun p => p.1 == tok) with
